@@ -5,6 +5,8 @@
 import GoImap.Model.NumSet
 import GoImap.Spec.NumSet
 import GoImap.Lemmas.NumSetMerge
+import GoImap.Lemmas.NumSetCanon
+import GoImap.Lemmas.NumSetSearch
 namespace GoImap.C15
 open GoImap.NumSet GoImap.NumSetSpec
 
@@ -47,5 +49,25 @@ example : Range.Valid ⟨1, 4294967295⟩ ∧ Range.Valid ⟨7, 0⟩ ∧
   refine ⟨by simp [Range.Valid, W], by simp [Range.Valid, W], by decide⟩
 
 example : ((⟨1, 3⟩ : Range).merge ⟨5, 6⟩).2 = false := by decide
+
+/-! ### 2. the binary search finds the first range that is not `less q` -/
+
+/-- the Prop form of canonical form used by the lemmas is the executable `canonical` -/
+theorem canon_iff_canonical (s : NumSet.Set) : Canon s ↔ canonical s = true :=
+  (canonical_iff s).symm
+
+/-- on a canonical set `search s q` returns the first index whose range is not `less q`
+    (`s.length` when all are), and the flag says whether that range contains `q` -/
+theorem search_first (s : NumSet.Set) (q : Nat) (hc : canonical s = true) :
+    (search s q).1 ≤ s.length ∧
+    (∀ j, j < (search s q).1 → (s.getD j zeroR).less q = true) ∧
+    ((search s q).1 < s.length → (s.getD (search s q).1 zeroR).less q = false) ∧
+    (search s q).2 =
+      (decide ((search s q).1 < s.length) && (s.getD (search s q).1 zeroR).contains q) :=
+  search_spec s q (canon_mono s 0 ((canonical_iff s).1 hc) q)
+
+example : canonical [⟨1, 3⟩, ⟨5, 5⟩, ⟨9, 0⟩] = true ∧
+    search [⟨1, 3⟩, ⟨5, 5⟩, ⟨9, 0⟩] 4 = (1, false) ∧
+    search [⟨1, 3⟩, ⟨5, 5⟩, ⟨9, 0⟩] 12 = (2, true) := by decide
 
 end GoImap.C15
